@@ -15,6 +15,7 @@ ID = "C18"
 LEVEL = "exploration"
 TECHNIQUE = "metamorphic re-execution: every randomised operation is run twice with identical inputs and an identically seeded generator/--seed under two different ambient states of numpy's global generator; outputs compared exactly, global state compared before/after"
 RULE = (
+    "(training operations also see viabilities 0, 1, 1.05, 1e-12) "
     "for each of the randomised operations (3 plate generators incl. force_include, 6 smoothers, sparse cover, 2 hold-out splits, RandomScorer, DBAL triple sub-sampling, "
     "GaussianDBALScorer, score_chunk, select_next_plate with the k-per-sample policy, sampling.sample with both shipped MCMC models, and the CLIs with --seed: "
     "prepare_retrospective_simulation, train_model, calculate_scores, select_next_plate) a generated input, a seed and two ambient global states (np.random.seed(a) "
@@ -68,7 +69,12 @@ def _case(draw, op=None):
     if op == "cli:prepare_retrospective_simulation":
         sc = draw(retro.retro_screen(single_sample_plates=False, n_rows=(10, 18), n_plates=(3, 5), obs=st.floats(min_value=0.05, max_value=0.95), allow_same=False, allow_control=False))
     else:
-        sc = draw(retro.retro_screen(single_sample_plates=ssp or draw(st.booleans()), n_rows=(4, 16), obs=st.floats(min_value=0.05, max_value=0.95), allow_same=False, ensure_unobserved=2, ensure_observed=1))
+        obs = st.floats(min_value=0.05, max_value=0.95)
+        if op.startswith("sample:") or "train_model" in op:
+            # viabilities at and beyond the bounds are legal data (fully lethal, no effect, above the control): training must stay a
+            # function of data and seed there too, whatever numerical guards such values trip
+            obs = st.one_of(obs, obs, st.sampled_from([0.0, 1.0, 1.05, 1e-12]))
+        sc = draw(retro.retro_screen(single_sample_plates=ssp or draw(st.booleans()), n_rows=(4, 16), obs=obs, allow_same=False, ensure_unobserved=2, ensure_observed=1))
     c = {
         "op": op,
         "screen": sc,
@@ -170,7 +176,12 @@ def _fixed_cases():
             p = dict(pp.get(op, {}))
             if op.split(":")[0] in ("gen", "smooth"):
                 p["name"] = op.split(":")[1]
-            yield {"op": op, "screen": sc, "seed": seed, "ambient": amb, "ambient_draws": draws, "params": p, "flag": flag, "fraction": frac, "n_thetas": 6 + variant % 2, "D": 1 + variant % 2, "k": 1 + variant % 2}
+            sc_ = sc
+            if variant == 2 and (op.startswith("sample:") or "train_model" in op):
+                # third variant of the training operations: observed combination viabilities at and beyond the bounds
+                edge = iter([1.0, 0.0, 1.05])
+                sc_ = dict(sc, rows=[dict(r, o=next(edge, r["o"])) if (r["p"].endswith("_obs") and "ctl" not in r["t"]) else r for r in rows])
+            yield {"op": op, "screen": sc_, "seed": seed, "ambient": amb, "ambient_draws": draws, "params": p, "flag": flag, "fraction": frac, "n_thetas": 6 + variant % 2, "D": 1 + variant % 2, "k": 1 + variant % 2}
 
 
 # ---------------------------------------------------------------- canonical outputs
